@@ -986,3 +986,137 @@ func blockReaches(a, b *ssa.BasicBlock) bool {
 	}
 	return false
 }
+
+// ---- sign abstraction for integers ------------------------------------------------------------------------------
+//
+// signOf over-approximates the sign of an integer value: constants exactly, values the caller knows (`base`), phis as
+// the union over the edges that are feasible under the assumption, sums/products of known signs; anything else is
+// "any sign". cmpZero decides `x op 0` when the sign set allows.
+type signSet uint8
+
+const (
+	sgNeg signSet = 1 << iota
+	sgZero
+	sgPos
+	sgAny = sgNeg | sgZero | sgPos
+)
+
+func signOf(fn *ssa.Function, v ssa.Value, base func(ssa.Value) (signSet, bool), a Assumption, depth int) signSet {
+	if depth > 12 {
+		return sgAny
+	}
+	if s, ok := base(v); ok {
+		return s
+	}
+	switch x := v.(type) {
+	case *ssa.Const:
+		if k, ok := constIntVal(x); ok {
+			switch {
+			case k < 0:
+				return sgNeg
+			case k == 0:
+				return sgZero
+			}
+			return sgPos
+		}
+	case *ssa.Convert:
+		return signOf(fn, x.X, base, a, depth+1)
+	case *ssa.ChangeType:
+		return signOf(fn, x.X, base, a, depth+1)
+	case *ssa.Phi:
+		var s signSet
+		for i, ed := range x.Edges {
+			pred := x.Block().Preds[i]
+			if a != nil && (!edgeFeasible(pred, x.Block(), a, depth+1) || !reachableBlock(fn, pred, a)) {
+				continue
+			}
+			s |= signOf(fn, ed, base, a, depth+1)
+		}
+		if s == 0 {
+			return sgAny
+		}
+		return s
+	case *ssa.UnOp:
+		if al, ok := x.X.(*ssa.Alloc); ok && x.Op == token.MUL {
+			var s signSet
+			for _, st := range reachingStores(al, x) {
+				if a != nil && !reachableBlock(fn, st.Block(), a) {
+					continue
+				}
+				s |= signOf(fn, st.Val, base, a, depth+1)
+			}
+			if s != 0 {
+				return s
+			}
+		}
+	case *ssa.BinOp:
+		l, r := signOf(fn, x.X, base, a, depth+1), signOf(fn, x.Y, base, a, depth+1)
+		nonneg := func(s signSet) bool { return s&sgNeg == 0 }
+		switch x.Op {
+		case token.ADD:
+			if nonneg(l) && nonneg(r) {
+				if l == sgZero && r == sgZero {
+					return sgZero
+				}
+				if l == sgPos || r == sgPos {
+					return sgPos
+				}
+				return sgZero | sgPos
+			}
+		case token.MUL:
+			if l == sgZero || r == sgZero {
+				return sgZero
+			}
+			if nonneg(l) && nonneg(r) {
+				if l == sgPos && r == sgPos {
+					return sgPos
+				}
+				return sgZero | sgPos
+			}
+		}
+	}
+	return sgAny
+}
+
+func cmpZero(s signSet, op token.Token) (known, val bool) {
+	holds := func(sg signSet) bool { // does `x op 0` hold for a value of exactly this sign?
+		switch op {
+		case token.GTR:
+			return sg == sgPos
+		case token.GEQ:
+			return sg != sgNeg
+		case token.LSS:
+			return sg == sgNeg
+		case token.LEQ:
+			return sg != sgPos
+		case token.EQL:
+			return sg == sgZero
+		case token.NEQ:
+			return sg != sgZero
+		}
+		return false
+	}
+	switch op {
+	case token.GTR, token.GEQ, token.LSS, token.LEQ, token.EQL, token.NEQ:
+	default:
+		return false, false
+	}
+	anyT, anyF := false, false
+	for _, sg := range []signSet{sgNeg, sgZero, sgPos} {
+		if s&sg == 0 {
+			continue
+		}
+		if holds(sg) {
+			anyT = true
+		} else {
+			anyF = true
+		}
+	}
+	if anyT && !anyF {
+		return true, true
+	}
+	if anyF && !anyT {
+		return true, false
+	}
+	return false, false
+}
